@@ -319,7 +319,11 @@ Inductive case :=
 | CaseRACtor (is_gate : bool)
 | CaseChainCtor (ms : list member)
 | CaseChain (ms : list (N * ires))                                (* chain_authenticate(a1, a2, ...)(req) *)
-| CaseChainRA (m : mode) (h : hdr) (a : N * ires) (b : N * ires). (* chain(require_all(gate, a), b)(req) *)
+| CaseChainRA (m : mode) (h : hdr) (a : N * ires) (b : N * ires)  (* chain(require_all(gate, a), b)(req) *)
+  (* chain(require_all(gate_1, inner_1), ..., require_all(gate_n, inner_n))(req) around DISTINCT gates, one request:
+     each wrapper is given the mode of its own gate and the header as its own gate sees it *)
+| CaseChainMulti (ws : list (mode * hdr * option (N * ires)))
+| CaseChainMultiCustom (ws : list (gres * option (N * ires))).
 
 Definition enc_preason (r : preason) : N :=
   match r with RNoProof => 1 | RMalformed => 2 | RUnknownKid => 3 | RExpired => 4 | RNotYetValid => 5
@@ -361,4 +365,6 @@ Definition run_case (c : case) : list N :=
   | CaseChainCtor ms => enc_ctor (chain_ctor ms)
   | CaseChain ms => enc_out (chain_run (map auth_member ms))
   | CaseChainRA m h a b => enc_out (chain_run [ra_proof m h (Some a); auth_member b])
+  | CaseChainMulti ws => enc_out (chain_run (map (fun w => ra_proof (fst (fst w)) (snd (fst w)) (snd w)) ws))
+  | CaseChainMultiCustom ws => enc_out (chain_run (map (fun w => require_all (fst w) (snd w)) ws))
   end.
